@@ -103,7 +103,7 @@ def order_case(case):
 
 def cases(tier):
     if tier == "quick":
-        Ns = list(range(4, 41))
+        Ns = list(range(4, 41)) + [66, 70]          # 132 / 140 double-cover cells (past 128)
     else:
         Ns = list(range(4, 81)) + [100, 150, 272]
     return [{"alg": a, "N": n} for n in Ns for a in ("cube4D", "randomQ")]
@@ -133,7 +133,7 @@ def run(ctx):
         "worst_border_deviation": max(r.get("worst_border", 0.0) for r in res),
         "pairs_touching_through_two_faces": sum(r["two_face"] for r in res),
         "getter_order_words": sum(r["words"] for r in ores), "getter_order_calls": sum(r["calls"] for r in ores),
-        "exhaustive": True, "bound": {"N": "4..40" if ctx.tier == "quick" else "4..80, 100, 150, 272"},
+        "exhaustive": True, "bound": {"N": "4..40, 66, 70" if ctx.tier == "quick" else "4..80, 100, 150, 272"},
     }
     rep.assumptions = ["border tolerance 1e-6 absolute (measured deviation 3e-9 after fix F14)", "distance tolerance 1e-7",
                        "border value not compared for pairs that touch through two faces (left open by the statement)"]
